@@ -173,4 +173,14 @@ KnownSelect(Active, shadowed, O, pred) ==
     /\ shadowed /\ ~O.raised
     /\ O.name = pred.name /\ O.mod = pred.mod /\ O.field = pred.field /\ O.groth = pred.groth
     /\ Note("C19-specific-backend-reported-as-generic", <<O.name, O.field>>)
+
+(* ----------------------------------------------------------------------- *)
+(* C20 parameter selection *)
+(* C20-params-follow-shadowed-name: consequence of C19's finding: with backendbellman / backendbulletproofs   *)
+(* pre-imported the runtime reports "zkinterface", so the bn128 parameter set is used over the other field.   *)
+KnownParams(Active, F) ==
+    /\ IsActive(Active, "C20-params-follow-shadowed-name")
+    /\ \E i \in DOMAIN F.pre : F.pre[i] \in {"zkifbellman", "zkifbulletproofs"}
+    /\ F.backend_name = "zkinterface" /\ ~F.raised /\ F.setid = "x5_254"
+    /\ Note("C20-params-follow-shadowed-name", <<F.pre, F.env>>)
 =============================================================================
